@@ -211,3 +211,26 @@ def is_none_fact(test, polarity):
             if isinstance(test.ops[0], ast.IsNot):
                 return ("notnone" if polarity else "none", ast.unparse(test.left))
     return None
+
+
+_FLIP = {ast.Eq: ast.NotEq, ast.NotEq: ast.Eq, ast.Lt: ast.GtE, ast.GtE: ast.Lt, ast.Gt: ast.LtE, ast.LtE: ast.Gt, ast.In: ast.NotIn, ast.NotIn: ast.In, ast.Is: ast.IsNot, ast.IsNot: ast.Is}
+
+
+def holds(node, stop=None):
+    """The facts that hold at `node`, each as the source text of a *true* statement: a comparison known to be false
+    is given as its complement (`x != 2` false -> `x == 2`), anything else false as `not (...)`.  Lets a rule read a
+    guard clause (`if x != 2: return`) and a positive test (`if x == 2: ...`) the same way."""
+    out = []
+    for t, pol in guards_of(node, stop):
+        if pol:
+            out.append(ast.unparse(t))
+        elif isinstance(t, ast.Compare) and len(t.ops) == 1 and type(t.ops[0]) in _FLIP:
+            c = ast.Compare(left=t.left, ops=[_FLIP[type(t.ops[0])]()], comparators=t.comparators)
+            out.append(ast.unparse(c))
+        elif isinstance(t, ast.UnaryOp) and isinstance(t.op, ast.Not):
+            out.append(ast.unparse(t.operand))
+        elif isinstance(t, _MatchFact):
+            continue
+        else:
+            out.append(f"not ({ast.unparse(t)})")
+    return out
